@@ -120,6 +120,9 @@ class SdoServer(SdoBase):
 
     def block_download(self, data):
         # We currently don't support BLOCK DOWNLOAD
+        _, index, subindex = SDO_STRUCT.unpack_from(data)
+        self._index = index
+        self._subindex = subindex
         logger.error("Block download is not supported")
         self.abort(0x05040001)
 
